@@ -15,6 +15,7 @@ import GrcovModel.Lemmas.GcnoFinal
 import GrcovModel.Lemmas.GcnoFlow
 import GrcovModel.Lemmas.GcnoCert
 import GrcovModel.Props.C08EndToEnd
+import GrcovModel.Props.C08MultiBlock
 namespace Grcov.Props.C08
 open Grcov Grcov.Gcno AList Outcome
 
